@@ -76,7 +76,7 @@ def main(argv):
     rep.assumptions = ['states are well formed (registers hold values of their width, SCC is 0/1); operand kinds as listed by adm32/adm64/admd32/admd64',
                        'PC handed to the ALU is the address of the next instruction (emu/computeunit.go advances it before Run)']
     thorough = vlib.tier() == 'thorough'
-    per = 150 if thorough else 40
+    per = 150 if thorough else 20
     replay_file = argv[argv.index('--replay') + 1] if '--replay' in argv else None
 
     ok, log, binary = vlib.go_build('c03')
@@ -150,11 +150,12 @@ def main(argv):
     rep.coverage.update({
         'evaluations': len(cases),
         'distinct_nontrivial': len({vlib.case_hash(strip(c)) for c in cases if nontrivial(c)}),
-        'rule': 'one instruction per case (all implemented SOP2/SOP1/SOPC/SOPK/SOPP opcodes of both ALUs, %d cases each): operand kinds SGPR / literal / '
+        'rule': 'one instruction per case, all implemented SOP2/SOP1/SOPC/SOPK/SOPP opcodes of both ALUs. (a) deterministic corner grid, always run: each source in {0, 1, 0x7fffffff, 0x80000000, 0xfffffffe, 0xffffffff, random} x each other source likewise x SCC-in {0,1} (64-bit analogues for B64 rows; EXEC x source for saveexec); shift amounts {0,1,31,32,33,63,64,0xffffffff}; bit-field offset {0,1,4,16,31} x width {0,1,4,16,28,31,32,33,64,127}; SOPK immediates x register values equal/near the sign-extended immediate; SOPP immediates x SCC x VCC zero/non-zero x EXEC zero/non-zero. (b) %d random cases per opcode: operand kinds SGPR / literal / '
                 'inline +- / float constants / vcc_lo / vcc_hi / m0 / exec_lo / scc / exec_hi / vccz / execz, destinations SGPR / vcc / m0 / exec; '
                 'values from corner sets (0, 1, -1, 0x7fffffff, 0x80000000, shift amounts 31/32/33/63/64, bit-field descriptors, carry pairs a+b=2^32-1) and random; '
                 'random SCC/VCC/EXEC/M0/PC and register-file fill; non-trivial = executed without panic and changed state or is a compare/branch' % per,
         'corpus_cases': ncorpus,
+        'grid_cases': sum(1 for c in cases if c.get('class') == 'grid'),
         'cases_per_alu_format': {'%s/%s' % k: v for k, v in sorted(hist.items())},
         'operand_kind_histogram': dict(collections.Counter(k for c in cases for k in (c.get('kinds') or []))),
         'panics_observed': sum(1 for c in cases if c.get('panic')),
